@@ -26,6 +26,7 @@ func (s *Sess) Reopen() error {
 
 func runC15(tier string, seed uint64) {
 	rng := NewRng(seed)
+	c15BoltSnapshots(NewRng(seed + 11))
 	nseq, length := 10, 30
 	if tier == "thorough" {
 		nseq, length = 120, 50
